@@ -1,4 +1,5 @@
 import CheetahModel.DriverMaps
+import CheetahModel.DriverLattice
 /-!
 # Line-protocol driver
 
@@ -21,6 +22,10 @@ def runFloatOp (op : String) (a : Array Float) : Option (List Float) :=
 def handle (line : String) : String :=
   match (line.trimAscii.toString.splitOn " ").filter (· ≠ "") with
   | [] => "ERR empty"
+  | "lat" :: rest =>
+    match DrvLat.run rest with
+    | some out => out
+    | none => "ERR lat-parse"
   | op :: args =>
     match args.mapM parseF with
     | none => s!"ERR bad-arg {op}"
